@@ -354,8 +354,10 @@ def run(tier: str, seed: int) -> Tuple[Stats, str, List[str], Dict[str, Any]]:
         "a lookup or registration coroutine that was already running may still *return* after close (its own task "
         "finishing is not a listener/browser/lookup callback); it must not transmit or raise",
         "traffic sent at closed sockets is not delivered (a closed asyncio datagram transport receives nothing)",
-        "browsers are AsyncServiceBrowser objects (created directly or through async_add_service_listener); the "
-        "thread-based ServiceBrowser is not modelled",
+        "browsers are AsyncServiceBrowser objects (created directly or through async_add_service_listener) except in the "
+        "threaded-browser points, which run the sync API's ServiceBrowser in its real OS thread with a listener callback "
+        "that outlasts the close request by 0.05..11 real seconds - a fixed menu of durations, not an exploration of "
+        "thread interleavings",
     ]
     return stats, rule, assumptions, {"points": len(pts)}
 
